@@ -516,7 +516,11 @@ func render(f *FileSpec, order []int) rendered {
 		for _, l := range strings.Split(strings.TrimRight(sharedDecls[n], "\n"), "\n") {
 			if strings.HasPrefix(l, "sub ") {
 				rd.Start[n] = line
-				rd.Entries = append(rd.Entries, entryExp{Test: -1, Helper: n, Name: n, Scope: "RECV"})
+				// a helper with parameters cannot be called as a test and is not run as one
+				// (falco fix 'a subroutine which has parameters ...'); one without is still an entry
+				if !strings.Contains(strings.SplitN(l, "{", 2)[0], "(") {
+					rd.Entries = append(rd.Entries, entryExp{Test: -1, Helper: n, Name: n, Scope: "RECV"})
+				}
 			}
 			w(l)
 		}
@@ -1015,7 +1019,9 @@ func (c *checker) checkCounts(a *arrRun, cliTag string) {
 		}
 		want += v.Asserts
 	}
-	if allMatch {
+	// under --coverage the executed items can differ from the constructed ones (the known if-expression
+	// double evaluation, reported by the coverage monitor): the construction is the plain run's
+	if allMatch && !a.cov {
 		c.oc.Tag("asserts-count-checked")
 		if sm.Asserts != want {
 			w := fmt.Sprintf("summary.asserts = %d but the tests executed %d assertion calls; %s", sm.Asserts, want, nums)
@@ -1023,9 +1029,6 @@ func (c *checker) checkCounts(a *arrRun, cliTag string) {
 				w += fmt.Sprintf(" — the surplus equals the number of failed entries (%d): tester.run calls Counter.Fail(), which also increments Asserts", f)
 			}
 			c.oc.Violate("count:json/asserts", w, c.detail(&a.rd, &a.rr, nil))
-		}
-		if sm.Asserts != sm.Passes+sm.Fails {
-			c.oc.Violate("count:json/asserts!=passes+fails", nums, c.detail(&a.rd, &a.rr, nil))
 		}
 	}
 }
